@@ -26,12 +26,12 @@ Proof.
     + eapply sublist_trans; [apply skipSameNode_spans|exact Hs0].
     + apply Forall_app. split; [apply Hadd; exact Hacc|]. constructor; [right; apply Hs, Hin; reflexivity|constructor].
   - assert (Htail : forall r' ps' acc', sublist (r_spans r') spans -> Forall (freshOrSpan spans) acc' ->
-              Forall (freshOrSpan spans) (fst (let '(ok, r1) := next r' in
+              Forall (freshOrSpan spans) (fst (if e <=? r_pos r' then (acc', ps') else let '(ok, r1) := next r' in
                  if negb ok then (acc', ps') else
                  if jumped r1 then
                    collect_loop f r1 e tk esc (r_pos r1) (if ps' <=? r_prev r1 then acc' ++ [mkI tk ps' (r_prev r1 + 1)] else acc')
                  else collect_loop f r1 e tk esc ps' acc'))).
-    { intros r' ps' acc' Hs' Hacc'. pose proof (next_spans r') as Hn. destruct (next r') as [ok r1]. cbn [snd] in Hn.
+    { intros r' ps' acc' Hs' Hacc'. destruct (e <=? r_pos r'); [exact Hacc'|]. pose proof (next_spans r') as Hn. destruct (next r') as [ok r1]. cbn [snd] in Hn.
       destruct (negb ok); [exact Hacc'|].
       destruct (jumped r1); apply IH; try (eapply sublist_trans; eassumption); [apply Hadd; exact Hacc'|exact Hacc']. }
     destruct (esc && (okind cn =? UnparsedKind)); [|apply Htail; assumption].
